@@ -5,11 +5,11 @@ Confirms a sub-agent's seeded change in its scratch worktree /tmp/wt-Cxx:
 Prints a JSON verdict."""
 import os, re, subprocess, sys, json, shutil
 prop, var = sys.argv[1], sys.argv[2]
-wt = f"/tmp/wt-{prop}"
-out = f"/tmp/seedout-{prop}"
+wt = f"/tmp/wt2-{prop}" if var in "CD" else f"/tmp/wt-{prop}"
+out = f"/tmp/seedout2-{prop}" if var in "CD" else f"/tmp/seedout-{prop}"
 env = dict(os.environ, GOFLAGS="-mod=mod", GOPROXY="off", GOSUMDB="off", GOTOOLCHAIN="local")
 def run(cmd, cwd=wt):
-    p = subprocess.run(cmd, cwd=cwd, shell=True, env=env, capture_output=True, text=True)
+    p = subprocess.run(cmd, cwd=cwd, shell=True, env=env, capture_output=True, text=True, errors="replace")
     return p.returncode, (p.stdout + p.stderr)[-3000:]
 if os.path.isdir(f"{wt}/out"):
     if os.path.isdir(out): shutil.rmtree(out)
